@@ -2,6 +2,7 @@ import Dyce.PoolModel
 import Dyce.PoolHModel
 import Dyce.HistModel
 import Dyce.OrderStatModel
+import Dyce.PoolCtorModel
 /-! Line protocol over the executable model (import-free, so it links as a `lean_exe`).
 Every op line is `OPCODE` followed by space-separated integers; lists are length-prefixed. -/
 namespace Dyce.Driver
@@ -148,6 +149,38 @@ def opUMAP : P String := do
     pure (showHistT (umapH leI (fun i => arr.getD i.toNat (-1)) (idxHist ca)))
   | .error e => pure e
 
+/-- `MATMUL n hist` : `n @ h` (negative `n` → ValueError) -/
+def opMATMUL : P String := do
+  let n ← tok
+  let h ← hist
+  if n < 0 then pure "err ValueError" else
+  pure (showHistT (matmulH leI 0 (· + ·) n.toNat h))
+
+/-- a `P(...)` argument: `0 hist` | `1 n` (the `H(n)` shorthand) | `2 args…` (a nested pool) -/
+partial def parg : P (PArg Int) := do
+  let t ← tok
+  if t = 0 then do let h ← hist; pure (PArg.hist h)
+  else if t = 1 then do let n ← tok; pure (PArg.hist (ofInt n))
+  else do
+    let args ← listOf parg
+    pure (PArg.pool (mkPool leI args))
+
+def showDice (ds : List (Hist Int)) : String :=
+  "ok " ++ " ".intercalate (ds.map fun h => "[" ++ ",".intercalate (h.map fun oc => toString oc.1 ++ ":" ++ toString oc.2) ++ "]")
+    ++ " total=" ++ toString (poolTotal ds)
+
+/-- `PMK args…` : the dice of `P(*args)` in canonical order, and `P.total` -/
+def opPMK : P String := do
+  let args ← listOf parg
+  pure (showDice (mkPool leI args))
+
+/-- `PMATMUL n args…` : `n @ P(*args)` -/
+def opPMATMUL : P String := do
+  let n ← tok
+  let args ← listOf parg
+  if n < 0 then pure "err ValueError" else
+  pure (showDice (matmulP leI n.toNat (mkPool leI args)))
+
 def dispatch (op : String) : P String :=
   match op with
   | "RWC" => opRWC
@@ -155,6 +188,9 @@ def dispatch (op : String) : P String :=
   | "PH" => opPH
   | "MAP" => opMAP
   | "UMAP" => opUMAP
+  | "MATMUL" => opMATMUL
+  | "PMK" => opPMK
+  | "PMATMUL" => opPMATMUL
   | _ => pure "bad-op"
 
 def answer (line : String) : String :=
